@@ -2530,6 +2530,10 @@ impl VmGreenThread {
     // GARBAGE COLLECTION
 
     pub fn maybe_gc(&mut self) {
+        #[cfg(abra_verif)]
+        if verif_gc::manual() {
+            return;
+        }
         match self.gc_state {
             GcState::Idle => {
                 let threshold = self.last_gc_heap_size * GC_PAUSE_FACTOR;
@@ -2925,5 +2929,131 @@ pub mod verif_sched {
             }
         };
         log(|| Event::Step { thread: t.id, kind });
+    }
+}
+
+/// Verification hook (compiled only with `--cfg abra_verif`; additive): drive the collector of one
+/// green thread by hand, one loop iteration at a time, and take an abstract snapshot of what the
+/// collector sees (heap list with mark bits and child addresses, roots, gray stack, phase).
+/// The snapshot dereferences only objects that are in `heap_list`.
+#[cfg(abra_verif)]
+pub mod verif_gc {
+    use super::*;
+    use std::cell::Cell;
+    use std::fmt::Write as _;
+
+    thread_local! {
+        static MANUAL: Cell<bool> = const { Cell::new(false) };
+    }
+
+    /// while set (per OS thread), `maybe_gc` does nothing and the collector only moves through `step`
+    pub fn set_manual(on: bool) {
+        MANUAL.with(|m| m.set(on));
+    }
+
+    pub fn manual() -> bool {
+        MANUAL.with(|m| m.get())
+    }
+
+    /// one increment of the collector with the smallest budget: Idle → `start_mark_phase`,
+    /// Marking → `process_gray` for one object, Sweeping → `sweep` for one object
+    pub fn step(t: &mut VmGreenThread) {
+        match t.gc_state {
+            GcState::Idle => t.start_mark_phase(),
+            GcState::Marking => {
+                let mut one = 1usize;
+                t.process_gray(&mut one);
+            }
+            GcState::Sweeping { .. } => t.sweep(1),
+        }
+    }
+
+    fn ptr_of(t: &VmGreenThread, v: &Value) -> Option<usize> {
+        if !v.1.is_pointer() {
+            return None;
+        }
+        let a = v.0 as usize;
+        // static strings are outside the collected heap (`no_gc`); recognised by address so that
+        // no possibly-dangling pointer is dereferenced
+        if t.shared.static_strings.iter().any(|s| *s as usize == a) {
+            return None;
+        }
+        Some(a)
+    }
+
+    /// `phase=<i|m|s> idx=<n> heap=<addr>:<0|1>:<child,..>;.. roots=<a,..> gray=<a,..>` (gray: bottom first)
+    pub fn snapshot(t: &VmGreenThread) -> String {
+        let mut s = String::new();
+        let (ph, idx) = match t.gc_state {
+            GcState::Idle => ('i', 0),
+            GcState::Marking => ('m', 0),
+            GcState::Sweeping { index } => ('s', index),
+        };
+        write!(s, "phase={ph} idx={idx} heap=").unwrap();
+        for (i, h) in t.heap_list.iter().enumerate() {
+            if i > 0 {
+                s.push(';');
+            }
+            let header = unsafe { &**h };
+            let marked = header.visited == t.gc_visited;
+            let mut kids: Vec<usize> = vec![];
+            match header.kind {
+                ObjectKind::String => {}
+                ObjectKind::Enum => {
+                    let obj = unsafe { &*(*h as *const EnumObject) };
+                    kids.extend(ptr_of(t, &obj.val));
+                }
+                ObjectKind::Struct => {
+                    let obj = unsafe { &*(*h as *const StructObject) };
+                    for f in obj.get_fields() {
+                        kids.extend(ptr_of(t, f));
+                    }
+                }
+                ObjectKind::Array => {
+                    let obj = unsafe { &*(*h as *const ArrayObject) };
+                    for f in &obj.data {
+                        kids.extend(ptr_of(t, f));
+                    }
+                }
+                ObjectKind::Channel => {
+                    let obj = unsafe { &*(*h as *const ChannelObject) };
+                    for f in obj.data.lock().unwrap().iter() {
+                        kids.extend(ptr_of(t, f));
+                    }
+                }
+            }
+            write!(s, "{}:{}:", *h as usize, marked as u8).unwrap();
+            for (j, k) in kids.iter().enumerate() {
+                if j > 0 {
+                    s.push(',');
+                }
+                write!(s, "{k}").unwrap();
+            }
+        }
+        s.push_str(" roots=");
+        let mut roots: Vec<usize> = vec![];
+        for v in t.value_stack.iter() {
+            roots.extend(ptr_of(t, v));
+        }
+        roots.extend(ptr_of(t, &t.string_operand1));
+        roots.extend(ptr_of(t, &t.string_operand2));
+        for (j, k) in roots.iter().enumerate() {
+            if j > 0 {
+                s.push(',');
+            }
+            write!(s, "{k}").unwrap();
+        }
+        s.push_str(" gray=");
+        for (j, k) in t.gray_stack.iter().enumerate() {
+            if j > 0 {
+                s.push(',');
+            }
+            write!(s, "{}", *k as usize).unwrap();
+        }
+        s
+    }
+
+    pub fn heap_bytes(t: &VmGreenThread) -> (usize, usize) {
+        (t.heap_size, t.heap_list.len())
     }
 }
